@@ -37,9 +37,15 @@ class FileInfo:
                     self.by_line.setdefault(d.lineno, []).append(node)
 
 
+HARNESS_ROOT = os.path.join(os.path.dirname(os.path.dirname(os.path.abspath(__file__))), "contracts")
+
+
 def is_repo_file(filename):
+    """Source files whose code the engine interprets: the repository sources, and helper classes/functions defined
+    in the contract files themselves (test doubles such as a minimal has-variants holder)."""
     try:
-        return os.path.realpath(filename).startswith(REPO_SRC + os.sep)
+        rp = os.path.realpath(filename)
+        return rp.startswith(REPO_SRC + os.sep) or rp.startswith(HARNESS_ROOT + os.sep)
     except Exception:
         return False
 
@@ -109,7 +115,7 @@ def record_use(fi, node, qualname):
     lo, hi, text = segment(fi, node)
     _used[key] = {
         "qualname": qualname,
-        "file": os.path.relpath(fi.filename, os.path.dirname(REPO_SRC)),
+        "file": os.path.relpath(fi.filename, os.path.dirname(REPO_SRC)) if fi.filename.startswith(REPO_SRC) else "verif:" + os.path.basename(fi.filename),
         "lines": [lo, hi],
         "sha256": hashlib.sha256(text.encode()).hexdigest()[:16],
     }
